@@ -110,6 +110,10 @@ class BuildDirector(SectionLineParser):
             tol = 0.0
 
         for idx in self.current_molidxs:
+            # the molecule directive selects molecules by name and index; an
+            # index in the range that belongs to another molecule is skipped
+            if self.topology.molecules[idx].mol_name != self.current_molname:
+                continue
             msg = "Could not find atom {node} in molecule {molname} with index {idx}."
             if nodes[0] not in self.topology.molecules[idx]:
                 raise IOError(msg.format(node=nodes[0], idx=idx, molname=self.current_molname))
